@@ -85,33 +85,37 @@ def run(rep):
     need = ["Read", "ReadNOp", "Read1N", "Read1All", "ReadInto", "Read0", "Stream", "ChunkedOp", "Iter", "Preload",
             "Dispose", "NextRequest"]
     plans = [("repaired design, intact responses",
-              dict(sc="ScC12", maxops=5, after=2, _cov=True, _need=need) if quick else
+              dict(sc="ScC12", maxops=4, _cov=True, _need=need) if quick else
               dict(sc="ScC12", maxops=6, after=2, amts="AFull", amts1="A1237", gen="A1237", into="A37", _cov=True, _need=need), None),
              ("deviation D6 exhibited", dict(sc="ScC12Tiny", kd="JustD6"), bc.DEFECT_CLAUSES["JustD6"]),
              ("deviation D7 exhibited", dict(sc="ScC12Tiny", kd="JustD7"), bc.DEFECT_CLAUSES["JustD7"]),
              *([] if quick else [("repaired design, 12-unit bodies", dict(sc="ScC12Big", maxops=5, lag=5), None)]),
-             ("liveness: every call sequence ends", dict(spec="LiveSpec", sc="ScC12Tiny", amts="A2", amts1="A2", into="A2",
+             ("liveness: every call sequence ends", dict(spec="LiveSpec", sc="ScC12Live" if quick else "ScC12Tiny", amts="A2", amts1="A2", into="A2",
                                                          gen="A2", maxops=30, after=0, body="PROPERTY Terminates"), None)]
     J = bc.JOBS
     ekw = dict(sc=sc, maxops=3, amts="A1237", amts1="A27", into="A3", gen="A27")
     rng = random.Random(rep.seed * 7919 + 12)
-    rruns = [random_run(rng) for _ in range(6000 if quick else 150000)]
-    # probe: stream(amt=None) after a partial sized read on a decoded body (with D6 present this spins forever and is
-    # stopped by a short per-case deadline; with D6 repaired it simply passes)
-    for coding, framing in (("gzip", "cl"), ("zstd", "close")) if quick else (("gzip", "cl"), ("zstd", "close"), ("deflate", "cl")):
-        rruns.append({"case": {"size": 300, "pseed": 4, "coding": coding, "framing": framing, "decode": True, "seg": None},
-                      "ops": [("readn", 7), ("stream", 0)], "drain": ("stream", 0), "preload": False, "deadline": 15.0})
+    rruns = [random_run(rng) for _ in range(2400 if quick else 150000)]
+    # probe: stream(amt=None) after a partial sized read on a decoded body.  On a tree that has D6 (read() leaves the
+    # decoded buffer behind) this call spins forever; the spin probes are therefore only made when a direct look says
+    # the buffer is drained -- a tree with D6 is reported by the ordinary legs anyway (read() after read(n)).
+    if not _d6_present():
+        for coding, framing in (("gzip", "cl"), ("zstd", "close"), ("deflate", "cl")):
+            rruns.append({"case": {"size": 300, "pseed": 4, "coding": coding, "framing": framing, "decode": True, "seg": None},
+                          "ops": [("readn", 7), ("stream", 0)], "drain": ("stream", 0), "preload": False, "deadline": 60.0})
+    per_r = max(100, -(-len(rruns) // (2 * J))) if quick else 1000
     with bc.make_pool() as pool, ThreadPoolExecutor(2) as tp:
         if J > 4:       # stage 1, emission and the random leg overlap
             f1 = tp.submit(bc.stage1, plans)
-            f2 = tp.submit(bc.emit, ekw, max(2, J // 2))
-            bc.run_all(rep, pool, rruns, findings, counters, "random sequences", per=250 if quick else 1000)
+            f2 = tp.submit(bc.emit, ekw, max(2, J // 2), ("NoDefects",))
+            bc.run_all(rep, pool, rruns, findings, counters, "random sequences", per=per_r)
             r2, groups, nlines = f2.result()
             bc.account_stage1(rep, f1.result())
         else:           # small machines / development: one JVM at a time
             bc.account_stage1(rep, bc.stage1(plans))
-            r2, groups, nlines = bc.emit(ekw, J)
-            bc.run_all(rep, pool, rruns, findings, counters, "random sequences", per=250 if quick else 1000)
+            # the recorded deviations (F2, F4) cannot show on an intact response: the repaired-design set is the as-is set
+            r2, groups, nlines = bc.emit(ekw, J, ("NoDefects",))
+            bc.run_all(rep, pool, rruns, findings, counters, "random sequences", per=per_r)
         rep.stage1.append({"run": "emission " + sc, "distinct_states": r2.distinct, "states_generated": r2.generated,
                            "depth": r2.depth, "wall_s": round(r2.wall, 1), "behaviours_emitted": nlines,
                            "op_sequences": len(groups) - 1})
@@ -121,7 +125,8 @@ def run(rep):
         mruns, skipped = bc.runs_from_groups(groups, variants, rep.seed)
         if len(mruns) + skipped != (len(groups) - 1) * len(variants) or not mruns:
             raise tlc.MachineryError(f"emitted {len(groups) - 1} op sequences x {len(variants)} variants but built {len(mruns)} + {skipped}")
-        done = bc.run_all(rep, pool, mruns, findings, counters, "model op sequences", per=400 if quick else 1500)
+        done = bc.run_all(rep, pool, mruns, findings, counters, "model op sequences",
+                          per=max(200, -(-len(mruns) // (2 * J))) if quick else 1500)
         if done + counters["generr"] < len(mruns):
             raise tlc.MachineryError(f"replayed {done} of {len(mruns)} model op sequences")
     rep.extra["model_op_sequences"] = len(groups) - 1
@@ -129,6 +134,14 @@ def run(rep):
     rep.extra["unrealizable_skipped"] = skipped
     rep.exhaustive = True
     bc.finish(rep, counters)
+
+
+def _d6_present():
+    """Does read() after a partial read(n) on a decoded body leave buffered bytes behind on this tree?"""
+    t = bc.execute({"case": {"size": 300, "pseed": 4, "coding": "gzip", "framing": "cl", "decode": True, "seg": None},
+                    "ops": [("readn", 7), ("read", 0)], "drain": None, "preload": False})
+    ev = t["events"]
+    return not (len(ev) == 2 and ev[1]["off"] == 7 and ev[1]["len"] == 293)
 
 
 def replay(rep, path):
